@@ -2,23 +2,27 @@ package main
 
 import (
 	"fmt"
+	"strings"
+	"time"
 
 	"git.sr.ht/~rockorager/vaxis"
 	"git.sr.ht/~rockorager/vaxis/vxfw"
+	"git.sr.ht/~rockorager/vaxis/vxfw/richtext"
 	"git.sr.ht/~rockorager/vaxis/vxfw/text"
 )
 
 func main() {
-	ctx := vxfw.DrawContext{Characters: vaxis.Characters, Max: vxfw.Size{Width: 1, Height: 10}}
-	s := "a你\n "
-	sc := text.NewSoftwrapScanner(s, 1)
-	for sc.Scan(ctx) {
-		fmt.Printf("line %q\n", sc.Text())
-	}
-	t := text.New(s)
-	sf, _ := t.Draw(ctx)
-	fmt.Println(sf.Size)
-	for i, c := range sf.Buffer {
-		fmt.Printf("%d %q\n", i, c.Grapheme)
+	for _, n := range []int{400, 800, 1600, 3200} {
+		c := strings.Repeat("0123456789 ", n)
+		for _, w := range []uint16{2, 16, 80} {
+			ctx := vxfw.DrawContext{Characters: vaxis.Characters, Max: vxfw.Size{Width: w, Height: 65535}}
+			t0 := time.Now()
+			rt := richtext.New([]vaxis.Segment{{Text: c}})
+			rt.Draw(ctx)
+			d1 := time.Since(t0)
+			t0 = time.Now()
+			text.New(c).Draw(ctx)
+			fmt.Println(n, w, "rich", d1, "text", time.Since(t0))
+		}
 	}
 }
